@@ -332,6 +332,16 @@ func c06Run(c *C) {
 	case 0:
 		// (i) identity on random byte strings
 		s := c06RandText(r, 200)
+		if r.Intn(800) == 0 {
+			// rarely a very long text: just beyond 64 KiB, 1 MiB, 4 MiB, 8 MiB
+			size := []int{1<<16 + 1, 1<<20 + 1, 4<<20 + 1, 4<<20 + 4097, 8<<20 + 3}[r.Intn(5)]
+			unit := c06RandText(r, 40) + "u"
+			for hasOpener(unit + unit) {
+				unit = strings.NewReplacer("{{", "{ {", "{%", "{ %", "{#", "{ #").Replace(unit + unit)
+			}
+			s = strings.Repeat(unit, size/len(unit)+1)[:size]
+			s = strings.TrimRight(s, "{") + "END"
+		}
 		if r.Chance(5) {
 			s = strings.Repeat(c06RandText(r, 40), 1+r.Intn(100))
 			for hasOpener(s) {
@@ -382,7 +392,7 @@ func c06Run(c *C) {
 		if c.WantSample() && len(s) > 0 && len(s) < 60 {
 			c.Sample(D{"kind": "identity", "source": q(s), "output": q(out)})
 		}
-		if len(s) > 0 && r.Chance(50) && !c06Routes(c, s) {
+		if len(s) > 0 && (r.Chance(50) || len(s) > 1<<16) && !c06Routes(c, s) {
 			return
 		}
 	default:
